@@ -132,6 +132,20 @@ func opClasses() []opClass {
 			case "one":
 				return cohortOf(r, neg, big.NewInt(1), 0)
 			case "nonint": // > 1, not an integer
+				if r.Chance(1, 10) {
+					// binary image: the low word of the coefficient alone spells a special value (10^j = "one" at
+					// exponent -j, 0, 1, 2^63) while the high word is not zero
+					jz := r.Range(1, 19)
+					w := new(big.Int).Set(ref.Pow10(jz))
+					if r.Chance(1, 4) {
+						w = new(big.Int).SetUint64(uint64(r.Pick(0, 1, 5)) + uint64(r.Intn(2))<<63)
+					}
+					c := new(big.Int).Lsh(big.NewInt(int64(r.Pick(1, 1, 2, 3, 30, r.Range(1, 1<<30)))), 64)
+					c.Add(c, w)
+					if c.Cmp(ref.Cmax) <= 0 && new(big.Int).Mod(c, ref.Pow10(jz)).Sign() != 0 {
+						return ref.Encode(neg, c, -jz)
+					}
+				}
 				if r.Chance(1, 4) {
 					// any coefficient length with the point anywhere inside it: 1 <= |v|, fractional digits present
 					c := shapedCoef(r)
